@@ -48,7 +48,7 @@ def run_batch(scns, runner=impl_thr.run_scenario, project=None):
         pos += n
         r["diff"] = None
         for i, (a, b) in enumerate(zip(r["impl"], r["model"])):
-            if project is not None and " | " in a and " | " in b:
+            if project is not None:
                 a, b = project(a), project(b)
             if a != b:
                 r["diff"] = i
